@@ -427,6 +427,35 @@ def _confined(m, mname):
                     defs.setdefault(e.id, []).append(n.context_expr)
         elif isinstance(n, ast.Call) and isinstance(n.func, ast.Attribute) and isinstance(n.func.value, ast.Name) and n.func.attr in ("append", "add", "insert", "extend") and n.args:
             defs.setdefault(n.func.value.id, []).append(n.args[-1])       # container filled element by element: each element is a definition
+    # `for a, b in <rows>` where every definition of <rows> is a list of k-tuples (literal rows, a comprehension yielding a tuple, append((..))): each
+    # target is defined by its own column, so a foreign file NAME in one column does not taint the FilePath in the other
+    def columns(name, k):
+        cols = [[] for _ in range(k)]
+        ds_ = defs.get(name, [])
+        seen_row = False
+        for d in ds_:
+            rows = None
+            if isinstance(d, (ast.List, ast.Tuple)) and (not d.elts or all(isinstance(e, ast.Tuple) for e in d.elts)) and \
+                    not (isinstance(d, ast.Tuple) and len(d.elts) == k and any(isinstance(getattr(d, "_parent", None), ast.Call) for _ in [0])):
+                rows = list(d.elts)
+            elif isinstance(d, (ast.ListComp, ast.GeneratorExp)) and isinstance(d.elt, ast.Tuple):
+                rows = [d.elt]
+            if isinstance(d, ast.Tuple) and isinstance(getattr(d, "_parent", None), ast.Call) and call_attr(d._parent) in ("append", "add", "insert"):
+                rows = [d]          # <rows>.append((a, b)): the argument is one row
+            if rows is None or any(len(r.elts) != k for r in rows):
+                return None
+            for r in rows:
+                seen_row = True
+                for i_, e in enumerate(r.elts):
+                    cols[i_].append(e)
+        return cols if seen_row else None
+    for n in ast.walk(m):
+        if isinstance(n, (ast.For, ast.comprehension)) and isinstance(n.target, (ast.Tuple, ast.List)) and isinstance(n.iter, ast.Name) and \
+                all(isinstance(e, ast.Name) for e in n.target.elts):
+            cols = columns(n.iter.id, len(n.target.elts))
+            if cols is not None:
+                for e, col in zip(n.target.elts, cols):
+                    defs[e.id] = [d for d in defs.get(e.id, []) if d is not n.iter] + col
     helper = mname.startswith("_stat")   # private helpers receive an already confined FilePath (call sites checked below)
     ok_names = set(pr[1:2]) if helper else set()
 
